@@ -108,3 +108,25 @@ def gen_stalls(run_seed: int, udesc: dict, cfg: dict, p: float = 0.35) -> list[d
             f["phase"] = rng.choice(phases)
         out.append(f)
     return out
+
+
+def deepen(desc: dict, tier: str) -> dict:
+    """Thorough tier: every second descriptor is scaled up (more workers, more examples per operation, longer stateful
+    sequences) - same universe, faults and schedule policy, deeper run. Derived stream; argv kept in step with the config."""
+    if tier != "thorough" or desc.get("index", 0) % 2 == 0 or "config" not in desc:
+        return desc
+    rng = random.Random(int(desc.get("run_seed", 0)) ^ 0xDEE9)
+    cfg = desc["config"]
+    if cfg.get("workers", 1) > 1:
+        cfg["workers"] = rng.choice([cfg["workers"], 4, 6, 8])
+    if isinstance(cfg.get("max_examples"), int):
+        cfg["max_examples"] = min(12, cfg["max_examples"] * 2)
+    if isinstance(cfg.get("step_count"), int):
+        cfg["step_count"] = cfg["step_count"] + rng.choice([2, 3, 4])
+    argv = cfg.get("argv")
+    if argv:
+        for flag, key in (("--workers", "workers"), ("--max-examples", "max_examples")):
+            if flag in argv:
+                argv[argv.index(flag) + 1] = str(cfg[key])
+    desc["deepened"] = True
+    return desc
